@@ -625,3 +625,23 @@ def r10(cx):
     else:
         cx.violation(rk, "mark-file-reader-le-u64-only", "%s: load_flushed_seq decodes the mark through %s: with more than one accepted encoding the length test no longer identifies the format" % (
             rb.j["span"], decs or "nothing recognisable"), [rb.j["span"]])
+
+
+@rule("C05", "R11", "segments are written in append mode: open_segment opens the file with OpenOptions::append(true) - open() cuts a torn tail with set_len, which does not move a plain "
+      "write handle's position; without append mode the next record lands past the cut, leaves a zero-filled hole the reader stops at, and everything acknowledged after the "
+      "reopen is lost at the following one")
+def r11(cx):
+    fk = W + "open_segment"
+    ck = cx.prog.code_key(fk)
+    b = cx.body(ck)
+    if b is None:
+        cx.violation(fk, "anchor-missing", "body not found", [])
+        return
+    opens = [bi for bi, t in b.calls() if t["callee"].endswith("OpenOptions::open")]
+    apps = [bi for bi, t in b.calls() if t["callee"].endswith("OpenOptions::append") and len(t["args"]) > 1 and t["args"][1].get("k") == "const" and t["args"][1].get("int") == 1]
+    if not cx.floor("OpenOptions::open in open_segment", len(opens), 1, ck):
+        return
+    if apps and all(any(b.reaches(a, o) for a in apps) for o in opens):
+        cx.passed(fk, "append-mode", [b.sp(apps[0])])
+    else:
+        cx.violation(fk, "append-mode", "%s: the segment file is not opened with append(true): after open() shortened a torn tail the next append is written at the stale position, past the cut" % b.sp(opens[0]), [b.sp(opens[0])])
